@@ -60,6 +60,7 @@ info: {title: m, version: "1"}
 components:
   securitySchemes:
     key: {type: apiKey, in: header, name: X-Key}
+    key2: {type: apiKey, in: header, name: X-Key2}
   schemas:
     Item:
       type: object
@@ -121,6 +122,18 @@ paths:
       requestBody: {required: true, content: {"image/*": {schema: {type: string, format: binary}}}}
       responses:
         "200": {description: ok}` + def + `
+  /both:
+    get:
+      operationId: getBoth
+      security: [{key: [], key2: []}]
+      responses:
+        "200": {description: ok}` + def + `
+  /either:
+    get:
+      operationId: getEither
+      security: [{key: []}, {key2: []}]
+      responses:
+        "200": {description: ok}` + def + `
   /plain:
     get:
       operationId: getPlain
@@ -169,6 +182,17 @@ func matrixRequests() []Req {
 	r = g("handler_fail", "/items/5", "q=ab", hdr("X-Key", "k"), "handler failure")
 	r.Inject = true
 	add(r)
+	// a requirement that names two schemes needs both; two alternatives need one
+	sec2 := func(cls, path string, h map[string][]string, note string) Req {
+		return Req{Cls: cls, Sec: true, BodyKind: "none", Method: "GET", Path: path, Header: h, Note: note}
+	}
+	add(sec2("valid", "/both", hdr("X-Key", "k", "X-Key2", "k2"), "both credentials of a two-scheme requirement"))
+	add(sec2("no_creds", "/both", hdr("X-Key", "k"), "first credential of a two-scheme requirement only"))
+	add(sec2("no_creds", "/both", hdr("X-Key2", "k2"), "second credential of a two-scheme requirement only"))
+	add(sec2("no_creds", "/both", hdr(), "no credentials for a two-scheme requirement"))
+	add(sec2("valid", "/either", hdr("X-Key2", "k2"), "second of two alternative requirements"))
+	add(sec2("valid", "/either", hdr("X-Key", "k"), "first of two alternative requirements"))
+	add(sec2("no_creds", "/either", hdr(), "no credentials for two alternative requirements"))
 	// both security and a bad parameter: the earlier stage (security) answers
 	add(g("no_creds", "/items/abc", "", hdr(), "no credentials and bad parameters"))
 	// postItem: params + required body
